@@ -31,7 +31,8 @@ class Convert(Contract):
     props = {'code_eq_Q': ['C10'], 'format': ['C10', 'C02'], 'shape': ['C10'], 'source_unchanged': ['C10', 'C20'],
              'flag_overflow': ['C04'], 'flag_underflow': ['C04'], 'in_range': ['C02'], 'separate_state': ['C20'],
              'no_exception': ['C10'], 'meta_n_int': ['C02'], 'meta_limits': ['C02'], 'meta_status_keys': ['C02', 'C04'],
-             'inaccuracy_propagates': ['C04'], 'others_unchanged': ['C10'], 'governing_config': ['C10']}
+             'inaccuracy_propagates': ['C04'], 'others_unchanged': ['C10'], 'governing_config': ['C10'],
+             'readback': ['C16', 'C10', 'C01'], 'vdtype_consistent': ['C16', 'C02']}
 
     def configs(self, tier):
         fm = conv_formats(tier)
@@ -64,7 +65,7 @@ class Convert(Contract):
         shape = tuple(cfg['shape'])
         n = nelem(shape)
         in_place = route in ('resize', 'resize_dtype')
-        src = make_fxp(P, s, w, f, codes=inp['c'], shape=shape, cfg=gov if in_place else other, status={'inaccuracy': inp['isrc']}, vdtype=float)
+        src = make_fxp(P, s, w, f, codes=inp['c'], shape=shape, cfg=gov if in_place else other, status={'inaccuracy': inp['isrc']}, vdtype=float if f > 0 else int)
         bsrc = dict(src.__dict__); v0 = list(elems(src.val)); st0 = dict(src.status); c0 = dict(src.config.__dict__)
         dst = None
         if route in ('ctor_like', 'like_method', 'equal', 'call', 'set_val'):
@@ -90,6 +91,8 @@ class Convert(Contract):
         elif route == 'setitem':
             dst[1] = src; z = dst
         o = obs_fxp(z)
+        o['getval'] = z.get_val()
+        o['vdtype_is_int'] = z.vdtype is int
         if not in_place:
             o['source_unchanged'] = all(src.__dict__[k] is bsrc[k] for k in bsrc) and same_elems(elems(src.val), v0) \
                 and same_status(src.status, st0) and src.config.__dict__ == c0
@@ -135,8 +138,11 @@ class Convert(Contract):
             R = ROUND(scale2(c, df - f), cfg['rule'])
             Rs.append(R)
             out['code_eq_Q[%d]' % i] = eq(cz, OVF(R, ds, dw, cfg['mode']))
+            gi = i if route != 'setitem' else 1
+            out['readback[%d]' % i] = eq(M(elems(obs['getval'])[gi]), scale2(cz, -df))
             out['in_range[%d]' % i] = And(cz >= lo, cz <= hi)
         st = obs['status']
+        out['vdtype_consistent'] = Not(And(obs['vdtype_is_int'], df > 0))
         out['flag_overflow'] = Iff(B(st['overflow']), Or(*[R > hi for R in Rs]))
         out['flag_underflow'] = Iff(B(st['underflow']), Or(*[R < lo for R in Rs]))
         if route in ('ctor_from_fxp', 'ctor_like', 'call', 'set_val', 'setitem'):
